@@ -442,3 +442,135 @@ func AddStaleCapacity(m proto.Message, depth int) {
 		}
 	}
 }
+
+// AssignInPlace makes the message object dst hold the value of src WITHOUT replacing dst or any message object
+// reachable from it that also exists (same position, same Go type) in src: fields are overwritten one by one,
+// child messages, list elements, map values and oneof payloads are updated in place. Everything a generated type
+// keeps in its object besides the declared fields and the unknown-field set (state, size cache, anything a
+// changed generator adds) therefore survives — which is what "the same object was changed and used again" means.
+func AssignInPlace(dst, src proto.Message) {
+	assignStruct(reflect.ValueOf(dst), reflect.ValueOf(src))
+}
+
+func isMsgPtr(t reflect.Type) bool {
+	return t.Kind() == reflect.Ptr && t.Elem().Kind() == reflect.Struct && t.Implements(reflect.TypeOf((*proto.Message)(nil)).Elem())
+}
+
+func assignStruct(dp, sp reflect.Value) {
+	if dp.Kind() != reflect.Ptr || dp.IsNil() || sp.IsNil() || dp.Type() != sp.Type() {
+		return
+	}
+	d, s := dp.Elem(), sp.Elem()
+	for i := 0; i < d.NumField(); i++ {
+		sf := d.Type().Field(i)
+		data := sf.Tag.Get("protobuf") != "" || sf.Tag.Get("protobuf_oneof") != "" || sf.Name == "unknownFields"
+		if !data {
+			continue
+		}
+		dv, sv := settable(d.Field(i)), settable(s.Field(i))
+		assignValue(dv, sv)
+	}
+}
+
+func assignValue(dv, sv reflect.Value) {
+	t := dv.Type()
+	switch {
+	case isMsgPtr(t):
+		if !dv.IsNil() && !sv.IsNil() {
+			assignStruct(dv, sv)
+		} else {
+			dv.Set(sv)
+		}
+	case t.Kind() == reflect.Slice && isMsgPtr(t.Elem()):
+		if sv.IsNil() {
+			dv.Set(sv)
+			return
+		}
+		n := dv.Len()
+		if sv.Len() < n {
+			n = sv.Len()
+		}
+		out := reflect.MakeSlice(t, 0, sv.Len())
+		for i := 0; i < sv.Len(); i++ {
+			if i < n && !dv.Index(i).IsNil() && !sv.Index(i).IsNil() {
+				assignStruct(dv.Index(i), sv.Index(i))
+				out = reflect.Append(out, dv.Index(i))
+			} else {
+				out = reflect.Append(out, sv.Index(i))
+			}
+		}
+		dv.Set(out)
+	case t.Kind() == reflect.Map && isMsgPtr(t.Elem()):
+		if sv.IsNil() || dv.IsNil() {
+			dv.Set(sv)
+			return
+		}
+		for _, k := range dv.MapKeys() {
+			if !sv.MapIndex(k).IsValid() {
+				dv.SetMapIndex(k, reflect.Value{})
+			}
+		}
+		it := sv.MapRange()
+		for it.Next() {
+			old := dv.MapIndex(it.Key())
+			if old.IsValid() && !old.IsNil() && !it.Value().IsNil() {
+				assignStruct(old, it.Value())
+			} else {
+				dv.SetMapIndex(it.Key(), it.Value())
+			}
+		}
+	case t.Kind() == reflect.Interface:
+		// oneof: same wrapper type on both sides, both non-nil pointers: update the payload in place
+		if !dv.IsNil() && !sv.IsNil() && dv.Elem().Type() == sv.Elem().Type() && dv.Elem().Kind() == reflect.Ptr &&
+			!dv.Elem().IsNil() && !sv.Elem().IsNil() && dv.Elem().Elem().Kind() == reflect.Struct && dv.Elem().Elem().NumField() == 1 {
+			assignValue(settable(dv.Elem().Elem().Field(0)), settable(sv.Elem().Elem().Field(0)))
+		} else {
+			dv.Set(sv)
+		}
+	default:
+		dv.Set(sv)
+	}
+}
+
+// EmptyChildren: v with every message below the root replaced by the empty message of its type (same shape:
+// lists keep their length, maps their keys, oneofs their member) — the value an object tree has after its children
+// were cleared in place.
+func EmptyChildren(s *vschema.Schema, mi int, v *Val) *Val {
+	if v.T != Msg {
+		return v
+	}
+	out := &Val{T: Msg, B: v.B}
+	m := &s.Msgs[mi]
+	for j, slot := range v.Kids {
+		if j >= len(m.Fields) || !m.Fields[j].IsMsg {
+			out.Kids = append(out.Kids, slot)
+			continue
+		}
+		f := &m.Fields[j]
+		em := func(x *Val) *Val {
+			if x.T == Msg {
+				return Empty(s, f.Msg)
+			}
+			return x
+		}
+		switch slot.T {
+		case Msg:
+			out.Kids = append(out.Kids, em(slot))
+		case List, Map:
+			c := &Val{T: slot.T, NonNil: slot.NonNil}
+			for _, e := range slot.Kids {
+				if e.T == Entry {
+					c.Kids = append(c.Kids, VEntry(e.Kids[0], em(e.Kids[1])))
+				} else {
+					c.Kids = append(c.Kids, em(e))
+				}
+			}
+			out.Kids = append(out.Kids, c)
+		case One:
+			out.Kids = append(out.Kids, VOne(em(slot.Kids[0])))
+		default:
+			out.Kids = append(out.Kids, slot)
+		}
+	}
+	return out
+}
